@@ -40,11 +40,12 @@ def hooks_module():
         return None
 
 
-def tree_hash():
+def tree_hash(with_repo=True):
     """SHA-256 over the library sources, the specifications and the harness."""
     h = hashlib.sha256()
-    roots = [os.path.join(config.REPO, 'py_stringsimjoin'), config.SPEC,
-             os.path.join(config.VERIF, 'harness'), config.KNOWN]
+    roots = [config.SPEC, os.path.join(config.VERIF, 'harness'), config.KNOWN]
+    if with_repo:
+        roots.insert(0, os.path.join(config.REPO, 'py_stringsimjoin'))
     for root in roots:
         if os.path.isfile(root):
             h.update(open(root, 'rb').read())
@@ -55,7 +56,7 @@ def tree_hash():
                 if name.endswith(('.pyc', '.pyo')):
                     continue
                 path = os.path.join(dirpath, name)
-                h.update(path.encode())
+                h.update(os.path.relpath(path, root).encode())
                 with open(path, 'rb') as handle:
                     h.update(handle.read())
     return h.hexdigest()
